@@ -442,7 +442,9 @@ def code_to_http_status(status: Union[int, http.HTTPStatus, bytes, str]) -> str:
     # NOTE(kgriffs): If it is a str but does not have a space, assume it is
     #   just the number by itself.
     if isinstance(status, str) and ' ' in status:
-        return status
+        # NOTE: WSGI (PEP 3333) requires a native str; never hand an instance
+        #   of a str subclass through to the server.
+        return str.__str__(status)
 
     if isinstance(status, bytes) and b' ' in status:
         return status.decode()
